@@ -10,7 +10,7 @@ from ..build_inputs import build_input
 from ..file_types import *
 from ..iterutils import flatten, iterate, uniques, recursive_walk
 from ..objutils import objectify, identity
-from ..packages import CommonPackage, Package
+from ..packages import CommonPackage, Package, PackageKind
 from ..safe_str import literal, shell_literal
 from ..shell import posix as pshell
 from ..shell.syntax import Syntax, Writer
@@ -477,10 +477,15 @@ def pkg_config(context, name=None, *, system=False, **kwargs):
     if not info.auto_fill:
         dep_alias = _write_pkg_config(context, info)
         search_path = [PkgConfigWriter.directory.string(context.env.base_dirs)]
+        # Whoever links to this package's static libraries also needs their
+        # (private) requirements.
+        static = any(isinstance(i.all[0], StaticLibrary)
+                     for i in iterate(info.libs))
         try:
             return PkgConfigPackage(
                 context.env.tool('pkg_config'), info.name,
                 format=context.env.target_platform.object_format,
+                kind=PackageKind.static if static else PackageKind.any,
                 system=system, deps=dep_alias, search_path=search_path
             )
         except FileNotFoundError:
